@@ -1,0 +1,6 @@
+//go:build !verif
+
+package lib
+
+func VerifPoint(obj any, label string) {}
+func VerifDone()                      {}
